@@ -17,6 +17,15 @@ use std::time::Duration;
 static TOPIC: AtomicUsize = AtomicUsize::new(0);
 
 fn payload(i: usize, class: &str, seed: u64) -> String {
+    // `X<len>`: item 0 is exactly <len> bytes long (sizes at the frame limit), the others are small
+    if let Some(len) = class.strip_prefix('X') {
+        let len: usize = len.parse().unwrap();
+        if i != 0 { return format!("{i}|"); }
+        let mut r = Rng::new(seed, "itemX");
+        let mut s = String::from("0|");
+        while s.len() < len { s.push((b'a' + r.below(26) as u8) as char); }
+        return s;
+    }
     let body = match class { "s" => 0usize, "m" => 300, _ => 20_000 };
     let mut r = Rng::new(seed, &format!("item{i}"));
     let filler: String = (0..body).map(|_| (b'a' + r.below(26) as u8) as char).collect();
@@ -47,7 +56,7 @@ async fn run_case(addr: SocketAddr, certs: &Certs, t: &[&str], seed: u64) -> any
             let mut got: Vec<String> = vec![];
             let mut errs = 0usize;
             loop {
-                match tokio::time::timeout(Duration::from_millis(if got.len() >= n { 60 } else { 350 }), sub.next()).await {
+                match tokio::time::timeout(Duration::from_millis(if got.len() >= n { 60 } else if class.starts_with('X') { 2500 } else { 350 }), sub.next()).await {
                     Err(_) => break,
                     Ok(None) => break,
                     Ok(Some(Ok(v))) => got.push($from(v)),
@@ -103,6 +112,12 @@ pub fn run(cfg: &Cfg) {
         cases.push("ppx string - 0:60000 3 s y".into());
         cases.push("ppx string - 0:0 3 s y".into());
         cases.push("pp string zstd:bal 2:60000 5 l y".into());
+        // payload sizes up to the frame limit: an unbatched message of MAX-9 bytes is the largest frame (9 bytes of
+        // bincode around it); a batch of two adds 24 bytes of count and length markers
+        let max = 1usize << 20;
+        for len in [max - 9, max - 10, max - 17, max - 18, max - 40] { cases.push(format!("pp bytes - - 3 X{len} y")); }
+        cases.push(format!("pp string - - 2 X{} n", max - 9));
+        for len in [max - 26, max - 27, max - 35] { cases.push(format!("pp bytes - 2:60000 3 X{len} y")); }
         for _ in 0..cfg.n(0, 400) {
             let all = crate::codec::algos();
             let algo = if r.chance(1, 4) { "-".to_string() } else { r.pick(&all).clone() };
